@@ -153,6 +153,7 @@ class GenericGraphsAdapter(GenericQuadsBaseAdapter):
 
     @override
     def triple(self, terms: Iterable[Any]) -> Quad:
+        _ = self.graph  # raises JellyConformanceError if no graph is open
         return Quad(*chain(terms, [self._graph_id]))
 
     @override
